@@ -19,6 +19,38 @@ func (x *Exec) strAtomTerm(s StrV) *smt.Term {
 	return nil
 }
 
+// contentAtom maps a content string (concrete length, symbolic bytes) injectively into
+// the opaque sort, so that it can be stored in tables and compared with other atoms:
+// atom(b1..bn) = atom(c1..cn) iff all bytes are equal; different lengths are different.
+func (x *Exec) contentAtom(bs []*smt.Term) *smt.Term {
+	B := x.B
+	w := x.normStr(bs)
+	if w.IsConst {
+		return B.StrConst(w.S)
+	}
+	n := len(bs)
+	t := B.App(fmt.Sprintf("content_%d", n), smt.SStr, bs...)
+	if x.lenAxiom[t.ID] {
+		return t
+	}
+	x.lenAxiom[t.ID] = true
+	ax := []*smt.Term{B.Eq(x.atomLen(t), B.Int(int64(n)))}
+	for _, o := range x.contentAtoms {
+		if len(o.Args) != n {
+			ax = append(ax, B.Not(B.Eq(t, o)))
+			continue
+		}
+		eq := B.True
+		for i := range bs {
+			eq = B.And(eq, B.Eq(bs[i], o.Args[i]))
+		}
+		ax = append(ax, B.Eq(B.Eq(t, o), eq))
+	}
+	x.contentAtoms = append(x.contentAtoms, t)
+	x.Assume(B.And(ax...), "content string as atom (injective)")
+	return t
+}
+
 func (x *Exec) contentOf(s StrV) ([]*smt.Term, bool) {
 	if s.IsConst {
 		bs := make([]*smt.Term, len(s.S))
@@ -53,10 +85,11 @@ func (x *Exec) stringEq(a, b StrV) *smt.Term {
 	}
 	if a.Atom != nil || b.Atom != nil {
 		ta, tb := x.strAtomTerm(a), x.strAtomTerm(b)
-		if ta == nil || tb == nil {
-			// content vs atom: link the atom to the content through a fresh constant per content
-			// string is not needed in the code under test
-			x.Unsupported("comparison of an opaque string with a content string")
+		if ta == nil {
+			ta = x.contentAtom(a.Bytes)
+		}
+		if tb == nil {
+			tb = x.contentAtom(b.Bytes)
 		}
 		return B.Eq(ta, tb)
 	}
